@@ -15,6 +15,21 @@ TABLE = {
             "Held on the generated (pattern, flags, input) cases described in the evidence: every reported and every unreported line of every case is judged by an independent oracle, through the fast path, the slow path, the incremental reader and the rg binary. Exploration, not proof: reach comes from language-directed input generation.",
             "Trusts regex-automata as the definition of 'pattern matches'; oracle wraps the pattern per the flag documentation.",
             "DESIGN.md §3 C01"),
+    "C02": (True, "exploration",
+            "runtime monitoring: differential comparison of recorded Sink event logs across search strategies (slice / scripted readers with hooked buffer capacity / heap limit / file / mmap / multi-line requested), plus mmap vs no-mmap vs stdin at the CLI and valgrind memcheck in the thorough tier",
+            "Held on the generated (input, configuration, read history, buffer capacity) cases: all strategies delivered event logs identical to search_slice. The evidence counts how many reader legs actually had to roll and to grow their buffer.",
+            "Roll buffer capacity is set through the verif-hooks knob (growth policy unchanged); binary detection off.",
+            "DESIGN.md §3 C02"),
+    "C03": (True, "exploration",
+            "runtime monitoring: recorded Sink event streams and rg stdout checked online against an executable grep reference model, plus pure log invariants (ordering, uniqueness, monotone offsets)",
+            "Held on the generated gap-pattern cases: every event (kind, bytes, offset, line number, separators, final byte count) equals the model's, under slice, tiny-buffer reader and a third strategy, and in rg's text output.",
+            "The per-line match verdicts come from the C01 oracle; context kind is left open where a line is both after- and before-context.",
+            "DESIGN.md §3 C03"),
+    "C16": (True, "fault_enumeration",
+            "runtime monitoring with fault injection: scripted Sink (false / Err at event k) and scripted Read (error / Interrupted at read j) enumerated over every k and j of each case, logs checked offline for the prefix relation; rg -m N vs the grep model",
+            "For each generated case every stopping point of the result stream and every read index is enumerated (fully for logs up to the tier's bound, sampled with boundaries beyond); prefix-ness, exactly-one-finish-after-stop, no-finish-after-error and error propagation held on all of them.",
+            "Interrupted reads may be retried or surfaced; byte_count after a stop is unconstrained.",
+            "DESIGN.md §3 C16"),
 }
 
 PENDING_REASON = "check under construction in this round; not claimed yet (see DESIGN.md for the planned monitor)"
